@@ -1,5 +1,5 @@
 (* Model/C05Run.v - case type and checker evaluated on harness-generated cases (C05) *)
-From ReqV Require Export Lib.Bytes Lib.BigEndian Model.QuicVarint Model.H2Frame Model.H3Frame Model.H2Meta Model.H3Writer Model.H2EncConn.
+From ReqV Require Export Lib.Bytes Lib.BigEndian Model.QuicVarint Model.H2Frame Model.H3Frame Model.H2Meta Model.H3Writer Model.H2EncConn Model.H3RespConn.
 Open Scope N_scope.
 
 
@@ -27,6 +27,8 @@ Inductive c05_case :=
 | H3WriteFrame (section obs : bytes)
 (* two requests on one writer, A parked inside its k-th Write while B runs: both streams' bytes *)
 | H3Writer (k : N) (sec_a sec_b obs_a obs_b : bytes)
+(* responses read in sequence on one connection: class, (accepted, connection closed after) *)
+| H3RespSeq (obs : list (rclass * (bool * bool)))
 | H3Fields (is_request : bool) (fs : list field) (obs : hres h3header)
 | H3Trailers (fs : list field) (obs : hres hmap)
 | H3Response (fs : list field) (obs : hres (h3header * Z)).
@@ -196,6 +198,8 @@ Definition c05_check (c : c05_case) : bool :=
       | PDone, PDone => bytes_eqb (t_out (w_a st)) oa && bytes_eqb (t_out (w_b st)) ob
       | _, _ => false
       end
+  | H3RespSeq obs =>
+      list_eqb (fun a b => Bool.eqb (fst a) (fst b) && Bool.eqb (snd a) (snd b)) (resp_seq true rinit (map fst obs)) (map snd obs)
   | H3Fields q fs obs => hres_eqb h3header_eqb (h3_parse_headers q fs) obs
   | H3Trailers fs obs => hres_eqb hmap_eqb (h3_parse_trailers fs) obs
   | H3Response fs obs =>
